@@ -329,7 +329,16 @@ def _known_boundscheck_nested_conditional(case, failure) -> bool:
     return v is not None and _variant_passes(v)
 
 
+def _known_reshape_of_reshape_floordiv(case, failure) -> bool:
+    """a reshape inlined into another reshape (F order into C order): the
+    failure disappears when the inner reshape is stored"""
+    ops = _derived(case, lambda n: n["op"] == "reshape")
+    v = _store(case, lambda n, pos: n["op"] == "reshape", ops)
+    return v is not None and _variant_passes(v)
+
+
 KNOWN_PREDICATES = {
+    "reshape_of_reshape_floordiv": _known_reshape_of_reshape_floordiv,
     "boundscheck_nested_conditional": _known_boundscheck_nested_conditional,
     "bitwise_under_cast": _known_bitwise_under_cast,
     "index_with_cast": _known_index_with_cast,
